@@ -166,6 +166,18 @@ class Interposer:
             self.step("listdir", path)
         return os.listdir(path)
 
+    def _w_walk(self, top, *a, **k):
+        """os.walk with a scheduling point before every directory it lists (reads only)"""
+        it = os.walk(top, *a, **k)
+        while True:
+            if self.wrap_reads and isinstance(top, (str, bytes)) and self._inside(top):
+                self.step("walk", top)
+            try:
+                item = next(it)
+            except StopIteration:
+                return
+            yield item
+
     def _w_stat(self, name):
         real = getattr(os, name)
 
@@ -191,6 +203,7 @@ class Interposer:
                 setattr(ns, name, self._w_generic(name))
         ns.fdopen = self._w_fdopen
         ns.listdir = self._w_listdir
+        ns.walk = self._w_walk
         for name in ("stat", "lstat"):
             setattr(ns, name, self._w_stat(name))
         return ns
